@@ -40,6 +40,11 @@ func (d *structTypeFieldTextDecoder) Decode(req *protocol.Request, params param.
 		if tagInfo.Skip || tagInfo.Key == jsonTag || tagInfo.Key == fileNameTag {
 			if tagInfo.Key == jsonTag {
 				defaultValue = tagInfo.Default
+				if tagInfo.Skip {
+					// `json:"-"`: the body is no source for this field, so a member that happens
+					// to carry the field's name neither satisfies 'required' nor replaces the default
+					continue
+				}
 				found := checkRequireJSON(req, tagInfo)
 				if found {
 					err = nil
